@@ -11,7 +11,7 @@ ANCHOR_FILES = ["aw_datastore/storages/memory.py", "aw_datastore/storages/sqlite
 REQUIRED_COUNTERS = ["ops.memory", "ops.sqlite", "ops.peewee", "state_comparisons", "replace_last_checked"]
 RULE = ("operation histories (5-40 ops quick, up to 200 thorough) over 1-3 buckets of one store, per backend: insert, "
         "bulk insert, bulk upsert (live ids of that bucket mixed with id-less events; sometimes the same id twice in one call), replace(id), replace_last "
-        "(non-empty bucket, preceded by the limit-1 read that identifies its target), delete(live id), delete(id "
+        "(non-empty bucket, preceded by the limit-1 read that identifies its target; the payload is a fresh event, an event that carries the id of some live event, or the object handed to the previous replace_last edited and handed in again), delete(live id), delete(id "
         "that never existed in that bucket - nowhere, or live in another bucket of the store), occasionally delete + re-create of the bucket; timestamps from a pool of 6 instants and end instants from a pool (ties, nesting, "
         "zero-length, decreasing order, delete-then-upsert, delete-max-id-then-insert, identical twins with different ids, "
         "durations beyond a day); a third of the histories contain a burst of 3-7 operations that all concern the newest event of one "
@@ -83,7 +83,7 @@ def gen_case(rng, ctx):
         elif r < 0.58:
             ops.append(dict(op="replace", b=b, pick=rng.randrange(100), ev=ev()))
         elif r < 0.8:
-            ops.append(dict(op="replace_last", b=b, ev=ev()))
+            ops.append(dict(op="replace_last", b=b, ev=ev(), payload=rng.choice([None, None, "stale-id", "reused"]), pick=rng.randrange(100)))
         elif r < 0.93:
             ops.append(dict(op="delete", b=b, pick=rng.choice([rng.randrange(100), -1, -1])))   # -1: the max id
         elif r < 0.975:
@@ -100,7 +100,8 @@ def gen_case(rng, ctx):
         for _ in range(rng.randrange(3, 8)):
             r = rng.random()
             if r < 0.3:
-                burst.append(dict(op="replace_last", b=b, ev=ev(), rel=rng.choice([None, None, "newer", "older"])))
+                burst.append(dict(op="replace_last", b=b, ev=ev(), rel=rng.choice([None, None, "newer", "older"]),
+                                  payload=rng.choice([None, "stale-id", "reused"]), pick=rng.randrange(100)))
             elif r < 0.5:
                 burst.append(dict(op="delete", b=b, pick=-2))
             elif r < 0.6:
@@ -226,6 +227,7 @@ def run_case(case, ctx):
         model = {bid: {} for bid in bids}
         ever = {bid: set() for bid in bids}
         missing_id = 10**9
+        payloads = {}
         for k, op in enumerate(case["ops"]):
             bid = bids[op["b"]]
             b, m = ds[bid], model[bid]
@@ -278,7 +280,21 @@ def run_case(case, ctx):
                     viols.append(("limit-1-read-before-replace-last-unusable", f"{where} got={[obs(t) for t in top]!r:.200}"))
                     break
                 m[top[0].id] = _want(op["ev"])
-                b.replace_last(mk_event(op["ev"]))
+                payload = mk_event(op["ev"])
+                how = op.get("payload")
+                if how == "stale-id":
+                    # the payload is an event fetched earlier (it carries the id of some live event, not necessarily the newest)
+                    payload.id = live[op.get("pick", 0) % len(live)]
+                    flags.add("rl-payload-with-id")
+                elif how == "reused" and payloads.get(bid) is not None:
+                    # the very object handed to the previous replace_last of this bucket, edited and handed in again
+                    old_payload = payloads[bid]
+                    old_payload.timestamp, old_payload.duration, old_payload.data = payload.timestamp, payload.duration, payload.data
+                    payload = old_payload
+                    flags.add("rl-payload-reused")
+                payloads[bid] = payload
+                ctx.count(f"replace_last_payload.{how or 'fresh'}")
+                b.replace_last(payload)
                 ctx.count("replace_last_checked")
                 tss = [t[0] for t in m.values()]
                 if tss.count(max(tss)) > 1:
